@@ -16,7 +16,7 @@ from glue.core.message import (DataUpdateMessage, DataRemoveComponentMessage,
                                ComponentReplacedMessage, DataReorderComponentMessage,
                                ExternallyDerivableComponentsChangedMessage,
                                PixelAlignedDataChangedMessage)
-from glue.core.decorators import clear_cache
+from glue.core.decorators import clear_all_caches
 from glue.core.util import split_component_view
 from glue.core.hub import Hub
 from glue.core.subset import Subset, SubsetState, SliceSubsetState
@@ -1552,13 +1552,16 @@ class Data(BaseCartesianData):
 
             comp._data = data
 
+        # Cached subset masks may depend on the values that have changed, at
+        # any level of composite subset states. Note that this needs to be
+        # done before alerting the hub, since the listeners typically react
+        # by computing the masks again.
+        clear_all_caches()
+
         # alert hub of the change
         if self.hub is not None:
             msg = NumericalDataChangedMessage(self, components_changed=list(mapping.keys()))
             self.hub.broadcast(msg)
-
-        for subset in self.subsets:
-            clear_cache(subset.subset_state.to_mask)
 
     def update_values_from_data(self, data):
         """
@@ -1631,13 +1634,14 @@ class Data(BaseCartesianData):
         # Update data coordinates
         self.coords = data.coords
 
+        # Cached subset masks may depend on the values that have changed (see
+        # update_components)
+        clear_all_caches()
+
         # alert hub of the change
         if self.hub is not None:
             msg = NumericalDataChangedMessage(self)
             self.hub.broadcast(msg)
-
-        for subset in self.subsets:
-            clear_cache(subset.subset_state.to_mask)
 
     # The following are methods for accessing the data in various ways that
     # can be overriden by subclasses that want to improve performance.
